@@ -17,42 +17,39 @@ fn main() {
     for run in 0..runs {
         let s = seed.wrapping_mul(1_000_003).wrapping_add(run);
         let mut rng = Rng::new(s ^ 0xABCDEF);
+        // one configuration per file: the trace validator takes its constants from the first line
+        let three = || vec!["e1".to_string(), "e2".into(), "e3".into()];
+        let clients = |n: usize| (1..=n).map(|i| format!("c{i}")).collect::<Vec<_>>();
         let (cfg, prof) = match profile {
-            "core" => {
-                let n = 1 + rng.below(2);
-                (
-                    Cfg {
-                        ents: vec!["e1".into(), "e2".into(), "e3".into()],
-                        clients: (1..=n).map(|i| format!("c{i}")).collect(),
-                        max_size: vec![1200; n],
-                        ..Default::default()
-                    },
-                    Profile { steps: 50, comps: vec!["A", "B"], ..Default::default() },
-                )
-            }
+            "core" => (
+                Cfg { ents: three(), ..Default::default() },
+                Profile { steps: 50, comps: vec!["A", "B"], ..Default::default() },
+            ),
+            "core2" => (
+                Cfg { ents: three(), clients: clients(2), max_size: vec![1200; 2], ..Default::default() },
+                Profile { steps: 60, comps: vec!["A", "B"], ..Default::default() },
+            ),
             "rates" => (
                 Cfg { ents: vec!["e1".into(), "e2".into()], ..Default::default() },
                 Profile { steps: 50, comps: vec!["A", "P", "O"], ..Default::default() },
             ),
-            "vis" => {
-                let n = 1 + rng.below(2);
-                (
-                    Cfg {
-                        ents: vec!["e1".into(), "e2".into(), "e3".into()],
-                        clients: (1..=n).map(|i| format!("c{i}")).collect(),
-                        max_size: vec![1200; n],
-                        policy: if rng.chance(1, 2) { "black".into() } else { "white".into() },
-                        ..Default::default()
-                    },
-                    Profile { steps: 50, comps: vec!["A", "B"], vis: true, ..Default::default() },
-                )
-            }
+            "vis_black" | "vis_white" => (
+                Cfg {
+                    ents: three(),
+                    clients: clients(2),
+                    max_size: vec![1200; 2],
+                    policy: if profile == "vis_black" { "black".into() } else { "white".into() },
+                    ..Default::default()
+                },
+                Profile { steps: 60, comps: vec!["A", "B"], vis: true, marks: false, ..Default::default() },
+            ),
             "sess" => (
-                Cfg { ents: vec!["e1".into(), "e2".into(), "e3".into()], ..Default::default() },
+                Cfg { ents: three(), ..Default::default() },
                 Profile { steps: 50, comps: vec!["A", "B"], sess: true, ..Default::default() },
             ),
             p => panic!("unknown profile {p}"),
         };
+        let _ = &mut rng;
         let sim = random_run(&mut tr, cfg, &prof, s, run);
         if sim.server_panicked || sim.clients.iter().any(|c| c.panicked) {
             panics += 1;
